@@ -3,6 +3,9 @@ use std::collections::BTreeMap;
 use std::io::Write;
 
 use p2sim::core::*;
+
+#[global_allocator]
+static ALLOC: p2sim::alloc_watch::Watch = p2sim::alloc_watch::Watch;
 use p2sim::{registry, Property};
 use serde_json::{json, Value};
 
